@@ -366,16 +366,13 @@ def _list_dist(xs, ys, budget: int, ordered: bool) -> Optional[int]:
         for k in range(len(longer)):
             rest = longer[:k] + longer[k + 1:]
             if (rest == shorter) if ordered else (sorted(map(repr, rest)) == sorted(map(repr, shorter))):
+                if longer is xs and longer[k] == ("reverse", ("const", "True")):
+                    return 1  # sorted(..., reverse=True): the order is reversed
                 if longer is xs:
-                    # the implementation (first argument) has an EXTRA requirement / alternative / filter: decided only if
-                    # it is built from what the specification already talks about (otherwise it may be a correct shortcut)
-                    known = set()
-                    for o in list(all_x) + list(all_y):
-                        if o is not longer[k]:
-                            known |= logic_vocab(o)
-                    if not logic_vocab(longer[k]) <= known:
-                        return None
-                return 1  # one child added / dropped
+                    # the implementation (first argument) has an EXTRA requirement / alternative / filter / argument: it may
+                    # be a correct shortcut or a redundant condition – not decided
+                    return None
+                return 1  # one child of the specification dropped
     return None
 
 
@@ -447,8 +444,7 @@ def edit_distance(a, b, budget: int = 1, _qfree: bool = False) -> Optional[int]:
     if a in (("true",), ("const", "True")):
         return 1  # the implementation dropped a condition
     if b in (("true",), ("const", "True")):
-        # the implementation filters where the specification does not: decided only for filters on the bound variable alone
-        return 1 if all(v.startswith(("bv", "const")) for v in logic_vocab(a)) or not logic_vocab(a) else None
+        return None  # the implementation filters where the specification does not: may be redundant – not decided
     # the same conditions combined into a different boolean function
     if same_atoms(a, b):
         eq = prop_equivalent(a, b)
@@ -463,6 +459,11 @@ def edit_distance(a, b, budget: int = 1, _qfree: bool = False) -> Optional[int]:
         if a[0] == "in" and a[1] == b[2] and a[2] == b[1]:
             return 1
     best: Optional[int] = None
+    # the implementation (a) adds one alternative / requirement to the whole specified value, or drops one
+    if a and a[0] in ("and", "or") and len(a) == 2 and not (b and b[0] == a[0]) and b in a[1] and len(a[1]) == 2:
+        return None  # an added shortcut / extra requirement may be correct: not decided
+    if b and b[0] in ("and", "or") and len(b) == 2 and not (a and a[0] == b[0]) and a in b[1] and len(b[1]) == 2:
+        return 1
     # symmetric comparison: operands may have been reordered by the normaliser
     if a and b and a[0] == "cmp" and b[0] == "cmp" and a[1] in ("==", "!=") and b[1] in ("==", "!="):
         base = 0 if a[1] == b[1] else 1
